@@ -104,6 +104,8 @@ def run_unit(repo, unit, default_cfg_factory, timeout_ms=10000):
             obls[key]["cases"].append(ob)
 
         covers = {nm: False for nm, _ in unit.covers}
+        for ob in engine.all_obligations:
+            add(ob, None)
         for pe in ends:
             for ob in pe.st.oblig:
                 add(ob, pe.st)
